@@ -54,6 +54,7 @@ fn main() {
         ("record", "lists") => drv_lists::rec_lists(&a, &mut out),
         ("record", "text") => drv_text::rec_text(&a, &mut out),
         ("record", "serde") => drv_serde::rec_serde(&a, &mut out),
+        ("debug", "extremes") => drv_build::debug_extremes(&a),
         ("replay", "histories") => drv_build::replay_histories(&a, &mut out),
         _ => {
             eprintln!("usage: rtcm_conf record|replay <family> key=value...");
